@@ -155,7 +155,11 @@ def run_case(ctx, kind_, idx):
                     new_x = np.concatenate([[x[0]], inner, [x[-1]]])
                     wv = wv0 if wv0 is not None else Weaver(x.copy(), y.copy())
                     arg = [new_x, [float(v) for v in new_x], gen.as_container(rng, new_x, allow=("series",))[0]][int(rng.integers(0, 3))]
-                    callform.call(rng, wv.interpolate, "Weaver.interpolate", [], {"new_x": arg, "method": method})
+                    req = {"new_x": arg, "method": method}
+                    if rng.integers(0, 3) == 0:
+                        req["n"] = int(rng.integers(2, 60))       # documented: n is "ignored if new_x specified"
+                        info["n_given_next_to_the_grid"] = req["n"]
+                    callform.call(rng, wv.interpolate, "Weaver.interpolate", [], req)
                     gx, got = wv.get()
                     ctx.monitor("c13:weaver_grid")
                     if not (isinstance(gx, np.ndarray) and np.array_equal(gx, new_x)):
